@@ -8,7 +8,7 @@ import ast
 
 from ..core import AnchorError, call_name, norm, short, own_nodes, kwarg, FUNC_TYPES
 from ..cfg import cfg_of
-from ..lib import calls_in, stmts_in, gate, must_pass, node_has, params, paired, raised_name
+from ..lib import calls_in, stmts_in, gate, must_pass, node_has, params, paired, raised_name, loop_escapes
 
 REFS = 'jedi.inference.references'
 REF = 'jedi.api.refactoring'
@@ -58,7 +58,7 @@ def rule_b(repo, chk):
     if not loops:
         return
     lp = loops[0]
-    esc = [x for x in ast.walk(lp) if isinstance(x, (ast.Break, ast.Continue, ast.Return))]
+    esc = loop_escapes(lp)
     chk.ob('C05.b', not esc, lp, 'no break/continue/return inside the loop (no reference is skipped silently)', str([short(x) for x in esc]))
     # nothing slices/filters definitions before the loop
     pre = [s for s in stmts_in(f, (ast.Assign, ast.AugAssign)) if any(isinstance(t, ast.Name) and t.id == 'definitions' and isinstance(t.ctx, ast.Store) for t in ast.walk(s))]
@@ -156,7 +156,7 @@ def rule_d(repo, chk):
     chk.ob('C05.d', len(cand) == 1, f, 'one candidate map per examined token: _dictionarize(_find_names(module, leaf))')
     new_ = next(iter(cand), 'new')
     earlier = {n.target.id for n in own_nodes(f) if isinstance(n, ast.For) and isinstance(n.target, ast.Name)
-               and isinstance(n.iter, ast.Call) and norm(n.iter.func) == 'non_matching_reference_maps.get'}
+               and isinstance(n.iter, ast.Call) and norm(n.iter.func) in ('non_matching_reference_maps.get', 'non_matching_reference_maps.pop')}
     upd_new = [x for x in calls_in(f, 'update') if norm(x.func.value) == 'found_names_dct' and norm(x.args[0]) == new_]
     upd_old = [x for x in calls_in(f, 'update') if norm(x.func.value) == 'found_names_dct' and norm(x.args[0]) in earlier]
     chk.ob('C05.d', bool(upd_new) and bool(upd_old), f, 'the matching branch merges the candidate map and the earlier non-matching maps')
@@ -169,7 +169,8 @@ def rule_d(repo, chk):
             chk.ob('C05.d', p is None and bool(ids), t.ast, 'a matching candidate always contributes its %s' % what, 'path: %s' % c.describe(p) if p else '')
     # key consistency of the late-merge table
     regs = [x for x in calls_in(f, 'setdefault') if norm(x.func.value) == 'non_matching_reference_maps']
-    gets = [x for x in calls_in(f, 'get') if norm(x.func.value) == 'non_matching_reference_maps']
+    # read with .get(k, []) (and deleted afterwards) or taken out with .pop(k, ()): the same maps come out
+    gets = [x for x in calls_in(f, 'get') + calls_in(f, 'pop') if norm(x.func.value) == 'non_matching_reference_maps' and len(x.args) == 2]
     chk.ob('C05.d', len(regs) == 1 and len(gets) == 1, f, 'the late-merge table is filled and read at one place each')
     if regs and gets:
         def iter_source(call):
@@ -190,7 +191,7 @@ def rule_d(repo, chk):
     chk.ob('C05.d', ok, d, '_dictionarize keys a name by its tree name (falling back to the name object)')
     # every same-spelled token of every candidate module is examined
     lp = [n for n in own_nodes(f) if isinstance(n, ast.For) and 'get_used_names()' in norm(n.iter)]
-    ok = len(lp) == 1 and norm(lp[0].iter).endswith('.get(search_name, [])') and not [x for x in ast.walk(lp[0]) if isinstance(x, (ast.Break, ast.Continue, ast.Return))]
+    ok = len(lp) == 1 and norm(lp[0].iter).endswith('.get(search_name, [])') and not loop_escapes(lp[0])
     chk.ob('C05.d', ok, lp[0] if lp else f, 'every token spelled like the name is examined in every candidate module (no break/continue)')
 
 
